@@ -470,7 +470,7 @@ MUTANTS = [
     ("pose:shift-divided-by-scale", "checks.c01", "sec_pose", {"quats": [(_R[9], _R[10])], "entry": "multi"}, {_LB: [("            labels[i], loc_shift, local_rot[i], scores[i] = result\n            local_shifts[i] = loc_shift * self.scale", "            labels[i], loc_shift, local_rot[i], scores[i] = result\n            local_shifts[i] = loc_shift / self.scale")]}),
     ("pose:feature-columns-swapped", "checks.c01", "sec_pose", _PQ, {"acryo.loader._misc": [('pl.Series("align-dz", np.round(local_shifts[:, 0], 2)),', 'pl.Series("align-dz", np.round(local_shifts[:, 2], 2)),')]}),
     ("units:pos-not-converted", "checks.c01", "sec_units", {}, {_LB: [("                pos=self.molecules.pos / self.scale,\n            ),\n        )\n        all_results = tasks.compute()\n        return self._post_align(all_results, model.input_shape)", "                pos=self.molecules.pos,\n            ),\n        )\n        all_results = tasks.compute()\n        return self._post_align(all_results, model.input_shape)")]}),
-    ("units:max_shifts-times-scale", "checks.c01", "sec_units", {}, {"acryo.loader._group": [("            _max_shifts_px = np.asarray(max_shifts) / loader.scale\n            tasks = loader.construct_mapping_tasks(\n                model.align,\n                max_shifts=_max_shifts_px,\n                output_shape=model.input_shape,\n                backend=backend,", "            _max_shifts_px = np.asarray(max_shifts) * loader.scale\n            tasks = loader.construct_mapping_tasks(\n                model.align,\n                max_shifts=_max_shifts_px,\n                output_shape=model.input_shape,\n                backend=backend,")]}),
+    ("units:max_shifts-times-scale", "checks.c01", "sec_units", {}, {"acryo.loader._group": [("                np.asarray(_normalize_max_shifts(max_shifts)) / loader.scale\n            )\n            tasks = loader.construct_mapping_tasks(\n                model.align,", "                np.asarray(_normalize_max_shifts(max_shifts)) * loader.scale\n            )\n            tasks = loader.construct_mapping_tasks(\n                model.align,")]}),
 ]
 
 
